@@ -77,7 +77,15 @@ pub fn gen_pcm(kind: &str, rng: &mut Rng, channels: usize, bps: u32, frames: usi
     // per-channel / per-block mixtures: every channel (and every 16-frame block) draws its own behaviour
     let chan_kind: Vec<u64> = (0..channels).map(|_| rng.below(5)).collect();
     let mut block_kind: Vec<u64> = vec![0; channels];
+    // "gapmix:<g>": every g PCM frames the whole channel set draws one of: all active, only channel 0, only the last channel, all channels
+    // the same (dual mono), digital silence, channel 1 the negative of channel 0 - histories of blocks in which a channel slot is silent
+    // under changing channel assignments
+    let gap: usize = if let Some(g) = kind.strip_prefix("gapmix:") { g.parse().unwrap_or(16).max(1) } else { 0 };
+    let mut gap_mode = 0u64;
     for i in 0..frames {
+        if gap > 0 && i % gap == 0 {
+            gap_mode = rng.below(6);
+        }
         if i % 16 == 0 {
             for k in block_kind.iter_mut() {
                 *k = rng.below(4);
@@ -106,6 +114,27 @@ pub fn gen_pcm(kind: &str, rng: &mut Rng, channels: usize, bps: u32, frames: usi
                     2 => rng.range(lo, hi),
                     _ => { let step = (hi / 64).max(1); walk[c] = (walk[c] + rng.range(-step, step)).clamp(lo, hi); walk[c] }
                 },
+                k if k.starts_with("gapmix:") => {
+                    let step = (hi / 64).max(1);
+                    if c == 0 {
+                        walk[0] = (walk[0] + rng.range(-step, step)).clamp(lo, hi);
+                    }
+                    match gap_mode {
+                        0 => if c == 0 { walk[0] } else { rng.range(lo / 2, hi / 2) },
+                        1 => if c == 0 { walk[0] } else { 0 },
+                        2 => if c + 1 == channels { rng.range(lo / 2, hi / 2) } else { 0 },
+                        3 => walk[0],
+                        4 => 0,
+                        _ => if c % 2 == 0 { walk[0] } else { (-walk[0]).clamp(lo, hi) },
+                    }
+                }
+                // "loudrail:<g>:<pct>:<pos>": noise within +-pct % of full scale, and the most negative value at position pos of every g PCM
+                // frames (a value one predictor family cannot take a difference with at 32 bits, inside material no predictor gains on)
+                k if k.starts_with("loudrail:") => {
+                    let mut it = k[9..].split(':').map(|x| x.parse::<i64>().unwrap_or(0));
+                    let (g, pct, pos) = (it.next().unwrap_or(16).max(1), it.next().unwrap_or(85), it.next().unwrap_or(0));
+                    if (i as i64) % g == pos { lo } else { rng.range(((lo as i128 * pct as i128) / 100) as i64, ((hi as i128 * pct as i128) / 100) as i64) }
+                }
                 "noise" => rng.range(lo, hi),
                 // a quiet high-pitched tone with a little noise: linear prediction does far better than the fixed predictors
                 "hitone" => {
